@@ -13,8 +13,10 @@
 (* KeyTab maps every key encoding the harness's probe of                   *)
 (* keypair.DeserializePublicKey accepted to its re-serialization.          *)
 (* Named deviations (the code as it is):                                   *)
-(*   CountAsInt  -- list counts are cast with int(n): a count >= 2^63      *)
-(*                  becomes negative and the loop is skipped;              *)
+(*   CountAsInt  -- list counts were cast with int(n): a count >= 2^63     *)
+(*                  became negative and the loop was skipped.  Repaired by *)
+(*                  /repo commit c3ecd0b3 (loops count in uint64), so the  *)
+(*                  switch is FALSE = the design = the code;               *)
 (*   KeyReencoded -- bookkeeper keys are parsed and re-serialized in       *)
 (*                  canonical compressed form, whatever form was read.     *)
 (***************************************************************************)
@@ -41,8 +43,10 @@ RootOf(ts) == IF Len(ts) = 1 THEN ts[1] ELSE RootOf(Level(ts))
 RootTerm(hs) == IF hs = <<>> THEN [zero |-> TRUE] ELSE RootOf([i \in 1..Len(hs) |-> [leaf |-> hs[i]]])
 
 \* ------------------------------------------------------------------ header
-\* the loop bound int(n) of a uint64 count: negative (no iteration) from 2^63 on  [deviation CountAsInt]
-LoopCount(d) == IF d[8] >= 128 THEN 0 ELSE CountOf(d)
+\* the loop bound of a uint64 count.  With the deviation CountAsInt (the code before c3ecd0b3) the bound was int(n):
+\* negative, i.e. no iteration, from 2^63 on
+CountAsInt == FALSE
+LoopCount(d) == IF CountAsInt /\ d[8] >= 128 THEN 0 ELSE CountOf(d)
 DecList(b, o) ==
     LET n == RdVarUint(b, o) IN
     IF n.eof THEN Fail("eof", n.off)
@@ -104,7 +108,7 @@ Next == call.kind = "Init" /\ \E c \in Cases : call' = c /\ res' = Outcome(c.raw
 Spec == Init /\ [][Next]_vars
 
 \* ------------------------------------------------------------------ properties
-Deviating == {"bookkeeper-count-ge-2^63", "sig-count-ge-2^63", "bookkeeper-key-alternative-encoding"}
+Deviating == (IF CountAsInt THEN {"bookkeeper-count-ge-2^63", "sig-count-ge-2^63"} ELSE {}) \cup {"bookkeeper-key-alternative-encoding"}
 \* round trip: an accepted block re-encodes to the consumed bytes (except where the named deviations apply)
 RoundTripOK(c, r) == (r.v = "accept" /\ c.kind \notin Deviating) => r.reenc = SubSeq(c.raw, 1, r.n)
 DeviationOK(c, r) == (c.kind \in Deviating) => (r.v = "accept" /\ r.reenc # SubSeq(c.raw, 1, r.n))
